@@ -124,7 +124,7 @@ func clip(s string, n int) string {
 // checkGroundTruth compares the uncut parse with what the generator encoded.
 func checkGroundTruth(s Stream, got parseResult) string {
 	wantMsgs, wantW := s.Expect()
-	return diffResults(parseResult{Msgs: wantMsgs, Written: wantW}, got)
+	return diffResults(parseResult{Msgs: wantMsgs, Written: wantW, Err: s.ExpectErr()}, got)
 }
 
 // segReplay is the replay payload of the segmentation checks.
